@@ -74,7 +74,7 @@ use super::*;
 use crate::class::Class;
 use crate::message::tsig::PreparedTsigRr;
 use crate::message::writer::{Hint, HintedName, TsigMode};
-use crate::message::{Rcode, Reader, Writer};
+use crate::message::{ExtendedRcode, Opcode, Rcode, Reader, Writer};
 use crate::name::LowercaseName;
 use crate::rr::rdata::TimeSigned;
 use crate::rr::{Rdata, Ttl, Type};
